@@ -6,6 +6,7 @@
 -/
 import Axelar.Model.Trace
 import Axelar.Model.Gateway
+import Axelar.Model.GasService
 namespace Axelar
 
 structure Acct where
@@ -21,6 +22,7 @@ structure World where
   kind : Bytes → Option Kind := fun _ => none
   owner : Bytes → Bytes := fun _ => []
   gw : Gateway.State := Gateway.State.empty
+  gs : GasService.State := {}
 
 namespace World
 
@@ -57,6 +59,21 @@ def pay (w : World) (src dst : Bytes) (egld : Nat) : List (Bytes × Nat × Nat) 
 def stamp (addr : Bytes) (evs : List Ev) : List Event :=
   evs.map fun e => ⟨addr, e.name, e.topics, e.data⟩
 
+def balanceOf (w : World) (a : Bytes) : Option Bytes → Nat
+  | none => (w.accts a).egld
+  | some t => (w.accts a).esdt t
+
+/-- a direct transfer out of contract `src` -/
+def send (w : World) (src dst : Bytes) : Option Bytes → Nat → Option World
+  | none, n => (subEgld w src n).map fun w' => addEgld w' dst n
+  | some t, n => (subEsdt w src t n).map fun w' => addEsdt w' dst t n
+
+def applySends (w : World) (src : Bytes) : List GasService.Send → Option World
+  | [] => some w
+  | s :: rest => match send w src s.to s.tok s.amount with
+    | some w' => applySends w' src rest
+    | none => none
+
 /-- one transaction to a deployed contract (payments already moved by the caller of this
     function); `none` = the transaction fails and the world is rolled back by the caller -/
 def callContract (C : Crypto) (w : World) (src dst : Bytes) (func : String) (egld : Nat)
@@ -68,6 +85,13 @@ def callContract (C : Crypto) (w : World) (src dst : Bytes) (func : String) (egl
     if egld ≠ 0 || !esdt.isEmpty then none else
     match Gateway.call C w.gw ⟨src, w.owner dst, w.now⟩ func args with
     | .ok (gw', rs, evs) => some ({ w with gw := gw' }, rs, stamp dst evs)
+    | .error _ => none
+  | some .gasService =>
+    match GasService.call C w.gs ⟨src, w.owner dst, egld, esdt, balanceOf w dst⟩ func args with
+    | .ok out =>
+      match applySends { w with gs := out.st } dst out.sends with
+      | some w' => some (w', out.results, stamp dst out.events)
+      | none => none
     | .error _ => none
   | _ => none
 
@@ -98,6 +122,12 @@ def deploy (C : Crypto) (w : World) (kindName : String) (ownerAddr addr : Bytes)
     | .ok (st, evs) =>
       ({ w with gw := st, kind := upd w.kind addr (some .gateway), owner := upd w.owner addr ownerAddr },
        .ok [] (stamp addr evs) [])
+    | .error _ => (w, .fail)
+  | "gas-service" =>
+    match GasService.initCall args with
+    | .ok st =>
+      ({ w with gs := st, kind := upd w.kind addr (some .gasService), owner := upd w.owner addr ownerAddr },
+       .ok [] [] [])
     | .error _ => (w, .fail)
   | _ => (w, .fail)
 
